@@ -356,3 +356,30 @@ Arguments pend {data value}.
 Arguments threads {data value}.
 Arguments trace {data value}.
 Arguments clock {data value}.
+
+(* ---------------------------------------------------------------------------------------------- *)
+(* What the storage channel and the requesters observe of a trace (input of check_obs)              *)
+(* ---------------------------------------------------------------------------------------------- *)
+Section Observe.
+  Variables data value : Type.
+  Variable filt : value -> value.
+
+  Fixpoint obs_looks (tr : list (event data value)) : list (olook data) :=
+    match tr with
+    | [] => []
+    | EvLookup _ t c g x :: r => mkOlook data t c g x :: obs_looks r
+    | _ :: r => obs_looks r
+    end.
+
+  (* the view request i asked for *)
+  Definition sa_of (qs : list oreq) (i : nat) : bool :=
+    match nth_error qs i with Some q => q_sa q | None => true end.
+
+  Fixpoint obs_reps (qs : list oreq) (tr : list (event data value)) : list (orep value) :=
+    match tr with
+    | [] => []
+    | EvReply i t _ _ c g v _ _ _ _ :: r =>
+        mkOrep value i t c g (option_map (view value filt (sa_of qs i)) v) :: obs_reps qs r
+    | _ :: r => obs_reps qs r
+    end.
+End Observe.
